@@ -240,12 +240,47 @@ def writeFrameHeader (img : ImgHdr) (f : FrameHdr) : BW :=
 
 def tocDist : List Dist := [.bits 0 10, .bits 1024 14, .bits 17408 22, .bits 4211712 30]
 
-/-- frame = header, TOC (not permuted), sections (each already byte aligned) -/
-def writeFrame (img : ImgHdr) (f : FrameHdr) (sections : List (List Nat)) : List Nat :=
+/-- a permutation of `0..n-1` derived from `seed` (Fisher–Yates with a small LCG) -/
+def seededPerm (n seed : Nat) : List Nat :=
+  let rec go (fuel i st : Nat) (a : Array Nat) : Array Nat :=
+    match fuel with
+    | 0 => a
+    | fuel + 1 =>
+      if i == 0 then a
+      else
+        let st := (st * 1103515245 + 12345) % 2147483648
+        let j := (st / 65536) % (i + 1)
+        let ai := a.getD i 0
+        let aj := a.getD j 0
+        go fuel (i - 1) st ((a.set! i aj).set! j ai)
+  (go n (n - 1) (seed + 1) (Array.range n)).toList
+
+/-- frame = header, TOC, sections (each already byte aligned). `tocSeed = none`: TOC not permuted.
+`some k`: `permuted_toc = 1`; logical section `i` is stored at bitstream position `perm[i]`
+(`toc.rs`: `offsets_out[i] = offsets[permutation[i]]`), the permutation written through the
+entropy coder of C04 (8 contexts, prefix codes) as its Lehmer code. -/
+def writeFrame (img : ImgHdr) (f : FrameHdr) (sections : List (List Nat)) (tocSeed : Option Nat := none) :
+    List Nat :=
   let w := writeFrameHeader img f
-  let w := (w.bool false).padByte         -- permuted_toc = 0
-  let w := sections.foldl (fun w s => w.u32 tocDist s.length) w
-  let w := w.padByte
-  w.toBytes ++ sections.flatMap id
+  match tocSeed with
+  | none =>
+    let w := (w.bool false).padByte         -- permuted_toc = 0
+    let w := sections.foldl (fun w s => w.u32 tocDist s.length) w
+    let w := w.padByte
+    w.toBytes ++ sections.flatMap id
+  | some seed =>
+    let n := sections.length
+    let perm := seededPerm n seed
+    let items := permItems n 0 perm
+    let plan := (autoPlan .prefix 8).resolve items
+    let w := w.bool true
+    let w := w.bits (encodeHeader plan ++ encodeItems plan items)
+    let w := w.padByte
+    -- bitstream position p holds the logical section i with perm[i] = p
+    let inv := (List.range n).map fun p => (perm.findIdx? (· == p)).getD 0
+    let stored := inv.map fun i => sections.getD i []
+    let w := stored.foldl (fun w s => w.u32 tocDist s.length) w
+    let w := w.padByte
+    w.toBytes ++ stored.flatMap id
 
 end Jxl.Enc
